@@ -24,7 +24,7 @@ from spacepackets.cfdp import (
 from spacepackets.cfdp.pdu import AckPdu, DirectiveType, TransactionStatus
 from spacepackets.cfdp.pdu.helper import PduFactory
 from spacepackets.countdown import Countdown
-from spacepackets.seqcount import SeqCountProvider
+from spacepackets.seqcount import ProvidesSeqCount
 from spacepackets.util import UnsignedByteField
 
 import cfdppy.exceptions as cex
@@ -370,6 +370,30 @@ class RecFaultHandler(DefaultFaultHandlerBase):
         self._rec("ignore", transaction_id, cond, progress)
 
 
+class WrapSeq(ProvidesSeqCount):
+    """User-supplied sequence number provider with wrap-around (spacepackets' SeqCountProvider
+    0.26.1 does not wrap; what a transaction gets is recorded for C19)."""
+
+    def __init__(self, bit_width: int, start: int = 0):
+        self._w = bit_width
+        self.count = start % (1 << bit_width)
+        self.issued: list[int] = []
+
+    @property
+    def max_bit_width(self) -> int:
+        return self._w
+
+    @max_bit_width.setter
+    def max_bit_width(self, width: int) -> None:
+        self._w = width
+
+    def get_and_increment(self) -> int:
+        v = self.count
+        self.count = (self.count + 1) % (1 << self._w)
+        self.issued.append(v)
+        return v
+
+
 class SimCheckTimers(CheckTimerProvider):
     def __init__(self, world, ent):
         self.w = world
@@ -522,6 +546,7 @@ class Entity:
         self.inbox: list[bytes] = []
         self.poll_armed = False
         self.nodrain = False
+        self.drained: dict[str, bool] = {}
 
     def note_state(self, hk: str, snap: Snap) -> None:
         """History kept by the user: what it can see through the public properties."""
@@ -718,8 +743,7 @@ class World:
                 nak_timer_expiration_limit=c.nak_lim,
             )
             ent.table = RemoteEntityCfgTable([ent.rcfg])
-            ent.seqp = SeqCountProvider(c.seqw * 8)
-            ent.seqp.count = c.seq_start if c.seq_start < (1 << (c.seqw * 8)) else 0
+            ent.seqp = WrapSeq(c.seqw * 8, c.seq_start if c.seq_start < (1 << (c.seqw * 8)) else 0)
             ent.handlers["src"] = SourceHandler(ent.lcfg, ent.user, ent.table, ent.timers, ent.seqp)
             ent.handlers["dst"] = DestHandler(ent.lcfg, ent.user, ent.table, ent.timers)
         self.b.user.hooks = self.user_hooks_b
@@ -793,7 +817,8 @@ class World:
         rec.pre = Snap(h)
         # the shell's own knowledge of un-drained PDUs: it always drains completely unless it is
         # in no-drain mode, where the public counter of the previous call tells it what it left
-        rec.qlen_entry = rec.pre.nready if ent.nodrain else 0
+        # (in no-drain mode it cannot know that the queue is empty, so the clause is not judged)
+        rec.qlen_entry = 0 if ent.drained.get(hk, True) else max(rec.pre.nready, 1)
         self.cur_call = rec
         try:
             if op == "sm":
@@ -810,6 +835,7 @@ class World:
                 self.lib_excs[rec.exc.cls] = self.lib_excs.get(rec.exc.cls, 0) + 1
             else:
                 self.internal_errors.append(rec.exc)
+        ent.drained[hk] = not ent.nodrain
         if not ent.nodrain:
             for _ in range(10000):
                 try:
